@@ -41,7 +41,7 @@ m={
  "engines":[{"name":"mc","path":"/verif/mc","serves_properties":sorted(done),"kind_free_text":"stateless bounded exhaustive exploration of the production rodbus tasks (hand-polled futures, paused tokio clock, scripted in-memory transport, harness-owned connect outcomes) against reference models written in Rust; every explored path is an implementation trace"}],
  "checks":[],
  "not_applicable":[],
- "notes":"See DESIGN.md. Properties listed under not_applicable with reason 'not built yet' are work in progress in this commit."
+ "notes":"See DESIGN.md: all twenty properties are claimed, not_applicable is empty; sections 9 (defects found and repaired), 11 (what detects what) and 16 (what was built)."
 }
 for p in props:
     i=p['id']
